@@ -231,7 +231,7 @@ def build(inp) -> Case:
     scale = max([1.0] + [abs(x) for m in inp["mats"] for x in m])
     epsd = eps * Fraction(scale) * 4
     lines, blines = [], []
-    flat = arr.reshape(-1, 2, 2)
+    flat = before.reshape(-1, 2, 2)  # the matrices as the caller gave them (a mutated argument is reported above)
     nmat = flat.shape[0]
     for k in range(nmat):
         m = [flat[k][0, 0], flat[k][0, 1], flat[k][1, 0], flat[k][1, 1]]
